@@ -116,7 +116,7 @@ def pair_job(C, name, c1, c2, nl, newvars, maxcl, exprs_cap, str_cap, tmo=3000, 
                model_unwind=max(d['XT_MAXV'], d['XT_MAXCL'], exprs_cap, str_cap, (1 << newvars), 9) + 1, spec_headers=C.SPEC,
                callee_contracts=cc, replace=rep,
                call_alias={(C.AMO_T, C.AMO_T): C.AMO_T + '_rec'}, roots=[T[c1], T[c2]],
-               exceptions=True, caps=caps, abstract_fields=C.ABS, harness=harn, timeout=tmo, mem_gb=(32 if open_roots else 16), mem_est=(12 if open_roots else 4), solver=C.SOLVER,
+               exceptions=True, caps=caps, abstract_fields=C.ABS, harness=harn, timeout=tmo, mem_gb=(32 if open_roots else (48 if 'amo' in (c1, c2) or 'exo' in (c1, c2) else 16)), mem_est=(12 if open_roots else (40 if 'amo' in (c1, c2) or 'exo' in (c1, c2) else 4)), solver=C.SOLVER,
                replay={'driver': 'sat', 'stanza': stanza},
                bounded='histories of exactly two requests on a network of <= 2 existing variables (%s) with an empty cache; ' % ('all undecided, argument literals over them only' if open_roots else 'symbolic root values') +
                        'argument lists of <= %d symbolic literals' % nl)
@@ -130,4 +130,8 @@ def jobs(C, tier):
            pair_job(C, 'exo_amo', 'exo', 'amo', 2, 4, 10, 12, 6, open_roots=True, unwind=3)]
     out.append(pair_job(C, 'exo_exo', 'exo', 'exo', 2, 6, 16, 16, 6, open_roots=True, unwind=3))
     out.append(pair_job(C, 'amo_amo', 'amo', 'amo', 2, 2, 6, 8, 6, open_roots=True, unwind=3))
+    import os
+    if tier == 'thorough' or os.environ.get('C13_ROOTS'):
+        # the root-true shortcut of the cardinality constructs interacting with the cache: symbolic root values, <= 3 literals
+        out.append(pair_job(C, 'amo_amo_root_values', 'amo', 'amo', 3, 2, 8, 8, 8, open_roots=False, unwind=4))
     return out
